@@ -54,6 +54,9 @@ type beh struct {
 	// useModule: the loader calls module(name, package.seeall), the standard way of assigning package.loaded[name]
 	// oneself; the module table lives on in the global of that name and is found again by a later load
 	useModule bool
+	// clears: before it returns its value the loader takes its own entry out of package.loaded again (= nil or false),
+	// as a loader does that does not want a half-built module to be seen; the value it returns is the module all the same
+	clears int // 0 no, 1 nil, 2 false
 }
 
 func (b *beh) id() string {
@@ -80,6 +83,9 @@ func (b *beh) String() string {
 	}
 	if b.useModule {
 		parts = append(parts, "calls module()")
+	}
+	if b.clears > 0 {
+		parts = append(parts, "clears its package.loaded entry")
 	}
 	parts = append(parts, []string{"returns nothing", "returns a table", "returns a string", "returns a number", "returns true", "returns a userdata"}[b.ret])
 	if b.raise {
@@ -111,6 +117,9 @@ func body(name string, b *beh) string {
 	}
 	if b.raise {
 		fmt.Fprintf(&sb, "error(\"LOADFAIL:%s\")\n", name)
+	}
+	if b.clears > 0 {
+		fmt.Fprintf(&sb, "package.loaded[%q] = %s\n", name, []string{"", "nil", "false"}[b.clears])
 	}
 	switch b.ret {
 	case 1:
@@ -358,6 +367,9 @@ func (e *Engine) Run(t *core.Tape, cfg *core.Config, st *core.Stats) (viol *core
 		if !b.assign && !strings.Contains(name, ".") && t.Choose(5) == 0 {
 			b.useModule = true
 		}
+		if !b.assign && !b.useModule && !b.raise && b.ret != 0 && b.ret != 4 && t.Choose(8) == 0 {
+			b.clears = 1 + t.Choose(2)
+		}
 		return b
 	}
 	reduced := cfg.Sub == "short"
@@ -426,7 +438,7 @@ func (e *Engine) Run(t *core.Tape, cfg *core.Config, st *core.Stats) (viol *core
 						return fail("cache-mismatch", "after a require that was hit by an injected error, package.loaded[%q] changed from %s to %s although it was loaded before", n, b, d)
 					}
 					switch {
-					case d == "nil":
+					case d == "nil", d == "false": // (false: a loader that clears its entry was interrupted behind that statement)
 						ms.loaded[n] = ""
 					case d == "userdata":
 						ms.loaded[n] = ""
